@@ -109,6 +109,14 @@ func init() {
 						}
 					}
 				}
+				// more channels than fit in 8 or 16 bits (a few shapes: the buffers are large)
+				if ty.ID == dyn.Int8 || ty.ID == dyn.Float64 || ty.ID == dyn.MyInt16ID() {
+					for _, C := range []int{65535, 65536, 65538, 1<<17 + 1} {
+						for _, lk := range [][2]int{{0, 0}, {0, 1}, {1, 1}, {1, 3}} {
+							cases = append(cases, c13Case{Type: ty.Name, C: C, L: lk[0], K: lk[1]})
+						}
+					}
+				}
 				// ordered pairs of allocations from a reduced shape set
 				shapes := [][3]int{{1, 0, 1}, {1, 1, 1}, {2, 1, 2}, {3, 2, 2}, {1, 0, 0}, {2, 0, 3}, {8, 4, 4}, {2, 100, 700}, {1, 0, 5000}, {9, 1, 2}}
 				for _, a := range shapes {
@@ -157,7 +165,7 @@ func init() {
 			c.Sample(cases[0])
 			c.Sample(cases[len(cases)/2])
 			c.Sample(cases[len(cases)-1])
-			c.Set("rule", "every (element type in 13 built-in + 13 named) x C in {1..9,16,32,64,65,100,255,256,300,1024} x K in {0..8,63,64,65,1000,1025[,4096,20000]} x L (all L<=K for K<=8, else {0,1,K-1,K}), plus all ordered pairs of 10 shapes per type, plus 600 allocations in a row kept alive and re-inspected; a case is non-trivial when K>0 (there is storage to inspect); cases are distinct by construction (each tuple enumerated once)")
+			c.Set("rule", "every (element type in 13 built-in + 13 named) x C in {1..9,16,32,64,65,100,255,256,300,1024; 65535, 65536, 65538, 2^17+1 with K <= 3 for three types} x K in {0..8,63,64,65,1000,1025[,4096,20000]} x L (all L<=K for K<=8, else {0,1,K-1,K}), plus all ordered pairs of 10 shapes per type, plus 600 allocations in a row kept alive and re-inspected; a case is non-trivial when K>0 (there is storage to inspect); cases are distinct by construction (each tuple enumerated once)")
 			c.Set("types", len(dyn.Types))
 			c.Assume("the full capacity is inspected through Slice(0,Capacity), whose own correctness is C02's subject", "linux/amd64 only")
 		},
